@@ -139,6 +139,7 @@ class C12(PropBase):
     def pre_run(self, sess):
         sess.seen_containers = {}
         sess.keepalive = []
+        sess.pending_alias = []
 
     def comparable(self, sess, i, step):
         for k in ("x", "v"):
@@ -195,9 +196,39 @@ class C12(PropBase):
         if "error" in cold:
             raise RuntimeError(f"harness: cold execution failed: {cold['error']}")
         mine = out.canon()
+        if cold.get("trepr") != sess.trepr(cstep):
+            # Python itself evaluated the annotation to another object here than in a
+            # cold process (typing's _tp_cache aliases equal arguments): not comparable
+            sess.probes["typing_cache_aliased_annotation"] += 1
+            return
         if mine != cold["canon"]:
             sess.probes["cold_mismatch"] += 1
             sess.violation("cold-mismatch", i, {"here": _short(mine), "cold": _short(cold["canon"]), "op": step["op"]})
+            sess.pending_alias.append((i, cstep, mine, cold["canon"]))
+
+    def finish(self, sess):
+        """Causality experiment for the union-order-alias finding: after clearing every
+        memo the step alone must agree with its cold execution, and replaying just one
+        earlier step that spells the same union in another order must bring the same
+        wrong outcome back.  Only then is the violation attributed to that finding."""
+        steps = sess.history["steps"]
+        for (i, cstep, mine, cold) in sess.pending_alias:
+            confirmed = False
+            alias = _alias_steps(steps, i)
+            if alias:
+                sess.memos.clear("all")
+                alone = sess.exec_op(i, dict(cstep, id=-1000 - i))
+                if alone is not None and alone.canon() == cold:
+                    for e in alias:
+                        sess.memos.clear("all")
+                        sess.exec_op(0, dict(e, id=-2000 - i))
+                        again = sess.exec_op(i, dict(cstep, id=-3000 - i))
+                        if again is not None and again.canon() == mine:
+                            confirmed = True
+                            break
+            for v in sess.violations:
+                if v["oracle"] == "cold-mismatch" and v["step"] == i:
+                    v["detail"]["alias_confirmed"] = confirmed
 
     # ------------------------------------------------------------------ classification
     def classify(self, history, v):
@@ -223,6 +254,23 @@ def _union_sets(t):
     return out
 
 
+def _alias_steps(steps, i):
+    """Earlier non-fault steps whose type spells a union of step i in another order."""
+    mine = _union_sets(steps[i].get("t"))
+    out = []
+    for e in steps[:i]:
+        if e["op"] in hist.seams_fault_ops():
+            continue
+        hit = False
+        for fs, order in _union_sets(e.get("t")):
+            for fs2, order2 in mine:
+                if fs == fs2 and order != order2:
+                    hit = True
+        if hit:
+            out.append(e)
+    return out
+
+
 def classify_history(history, v) -> str:
     """Named, narrow predicates over the (minimised) failing history."""
     steps = history["steps"]
@@ -234,13 +282,10 @@ def classify_history(history, v) -> str:
     earlier = steps[:i]
     faults = [e["op"] for e in earlier if e["op"] in hist.seams_fault_ops()]
     if oracle == "cold-mismatch":
-        # union member-order alias: same member set seen earlier in another order
-        mine = _union_sets(s.get("t"))
-        for e in earlier:
-            for fs, order in _union_sets(e.get("t")):
-                for fs2, order2 in mine:
-                    if fs == fs2 and order != order2:
-                        return "union-order-alias"
+        # union member-order alias: same member set seen earlier in another order, and
+        # the in-process causality experiment (C12.finish) confirmed it
+        if v.get("detail", {}).get("alias_confirmed") and _alias_steps(steps, i):
+            return "union-order-alias"
         if any(e["op"] == "mutate_result" for e in earlier):
             return "after-result-mutation"
         if any(e["op"] == "mutate_input" for e in earlier):
